@@ -1053,8 +1053,9 @@ package spine
 
 // one Notify per subscription on the feature, to the subscriber's own connection, from the subscribed server
 // feature to the subscribed client feature, carrying the given command - and no other Notify
-//@ func (*DeviceLocal).NotifySubscribers
+//@ func (*DeviceLocal).NotifySubscribers impl:api.DeviceLocalInterface.NotifySubscribers
 //@   requires r != nil && featureAddress != nil
+//@   defines[nsn,nsdev,nsaddr,nscmd] nsn == old(nsn) + 1 && nsdev == store(old(nsdev), old(nsn), asIface(r, api.DeviceLocalInterface)) && nsaddr == store(old(nsaddr), old(nsn), featureAddress) && nscmd == store(old(nscmd), old(nsn), cmdKey(cmd))
 //@   let S = r.subscriptionManager.SubscriptionsOnFeature(*featureAddress)
 //@   ensures[C08,C07] one-each: ntn == old(ntn) + len(S) && forall j int :: 0 <= j && j < len(S) ==> nts[old(ntn) + j] == old(S[j].ClientFeature.Device().Sender()) && ntsrc[old(ntn) + j] == old(S[j].ServerFeature.Address()) && ntdst[old(ntn) + j] == old(S[j].ClientFeature.Address()) && ntcmd[old(ntn) + j] == cmdKey(cmd)
 //@   ensures[C08,C07] log-older: forall d int :: d < old(ntn) ==> nts[d] == old(nts)[d] && ntsrc[d] == old(ntsrc)[d] && ntdst[d] == old(ntdst)[d] && ntcmd[d] == old(ntcmd)[d]
@@ -1313,3 +1314,29 @@ package spine
 //@   ensures[C20] nothing-declared-noop: res2(LocalFeatureDataCopyOfType, 0, 1) != nil ==> setn == old(setn)
 //@   ensures[C20] atomic: acquisitions(muxUseCaseData) == 1 && locksUnchanged()
 //@   modifies held, wm, world, @SETLOG, @PUBLISH, outmisc, cells(model.NodeManagementUseCaseDataType), cells(model.UseCaseInformationDataType), cells(model.UseCaseSupportType), cells(model.FeatureAddressType)
+
+// ---------------------------------------------------------------------------------------
+// local data changes are announced exactly once (C08): a successful SetData / UpdateData asks the device to notify the
+// subscribers of this feature once, with the notify command of the changed function; a failed one asks for nothing
+//@ func (*FeatureLocal).updateData
+//@   requires r != nil
+//@   ensures[C08] same-function: result0 != nil ==> has(r.functionDataMap, function) && result0 == r.functionDataMap[function]
+//@   ensures[C08] unknown-function: !(has(r.functionDataMap, function) && r.functionDataMap[function] != nil) ==> result0 == nil && result1 != nil
+//@   ensures[C08] update-args: result0 != nil ==> arg(UpdateDataAny, 0) == result0 && arg(UpdateDataAny, 1) == remoteWrite && arg(UpdateDataAny, 2) == true && arg(UpdateDataAny, 3) == data && arg(UpdateDataAny, 4) == filterPartial && arg(UpdateDataAny, 5) == filterDelete && result1 == res(UpdateDataAny, 1)
+//@   modifies world, held, wm, cells(model.ErrorType), cells(model.DescriptionType)
+
+//@ func (*FeatureLocal).SetData
+//@   requires r != nil && r.Feature != nil && r.entity != nil
+//@   define OK = res(updateData, 0) != nil && res(updateData, 1) == nil
+//@   ensures[C08] update-args: arg(updateData, 1) == false && arg(updateData, 2) == function && arg(updateData, 3) == data && arg(updateData, 4) == nil && arg(updateData, 5) == nil
+//@   ensures[C08] announced-once: OK ==> nsn == old(nsn) + 1 && nsdev[old(nsn)] == r.entity.Device() && nsaddr[old(nsn)] == r.Feature.address && nscmd[old(nsn)] == cmdKey(res(NotifyOrWriteCmdType, 0)) && arg(NotifyOrWriteCmdType, 0) == res(updateData, 0) && arg(NotifyOrWriteCmdType, 1) == nil && arg(NotifyOrWriteCmdType, 2) == nil && arg(NotifyOrWriteCmdType, 3) == false && arg(NotifyOrWriteCmdType, 4) == nil
+//@   ensures[C08] failed-silent: !OK ==> nsn == old(nsn) && ntn == old(ntn)
+//@   modifies world, held, wm, outmisc, @NTLOG, cells(model.ErrorType), cells(model.DescriptionType), new(any)
+
+//@ func (*FeatureLocal).UpdateData
+//@   requires r != nil && r.Feature != nil && r.entity != nil
+//@   define OK = res(updateData, 0) != nil && res(updateData, 1) == nil
+//@   ensures[C08] update-args: arg(updateData, 1) == false && arg(updateData, 2) == function && arg(updateData, 3) == data && arg(updateData, 4) == filterPartial && arg(updateData, 5) == filterDelete && result == res(updateData, 1)
+//@   ensures[C08] announced-once: OK ==> nsn == old(nsn) + 1 && nsdev[old(nsn)] == r.entity.Device() && nsaddr[old(nsn)] == r.Feature.address && nscmd[old(nsn)] == cmdKey(res(NotifyOrWriteCmdType, 0)) && arg(NotifyOrWriteCmdType, 0) == res(updateData, 0)
+//@   ensures[C08] failed-silent: !OK ==> nsn == old(nsn) && ntn == old(ntn)
+//@   modifies world, held, wm, outmisc, @NTLOG, cells(model.ErrorType), cells(model.DescriptionType), new(any), new(model.FilterData)
